@@ -50,6 +50,19 @@ none / unbonded); `ethSigner` / `sigKey` = key ids (the key named / the key that
 batch's checkpoint, o = another batch's, w = same batch under another compass id); `form` = v byte
 offset of the signature (both accepted).  Answer: `<ok|rej>,…|<orchestrator>/<key>,…` = result per
 attempt and the final confirmation set (`cDeliver` / `cAccepted`).
+
+  lnh <feegranter> <account,…|-> <step> <step> …   with <step> = <kind>;<signer>;<creator>;<grant 0|1>;<arg>
+
+light-node licences and client records; step number i (from 1) is the block time of step i;
+`account,…` = the principals that have an account from the start.  `kind` = sale (attested sale for
+`arg`: licence + allowance of the feegranter; signer = creator = 0) | lgrant (the feegranter grants
+`arg` an allowance: a legacy node; signer = creator = feegranter) | lic (MsgAddLightNodeClientLicense
+for `arg`) | reg | auth | legacy (MsgSetLegacyLightNodeClients) — the last four are transactions
+signed by `signer` in `creator`'s name, `grant` = the creator has granted the signer an allowance
+(`arg` = 0 where unused).  Answer: `<ok|rej>,…|<principal>:<activated>/<lastAuth>/<licence 0|1>,…`
+= result per step and, for every light-node principal named in the line (ids from 31, ascending;
+lower ids are accounts that exist before the history), its client record (`-` = none) and whether
+a licence is pending (`lDeliver` / `lAccepted` / `lStep`).
 -/
 namespace Driver.C03
 open Paloma.Auth
@@ -194,8 +207,66 @@ def stepConfirmHistory (keys : String) (toks : List String) : String :=
     ",".intercalate outs ++ "|" ++ setS
   | _, _ => "bad-op"
 
+
+/-! ### `lnh`: light-node licences and client records -/
+
+structure LStepTok where
+  kind : String
+  signer : Nat
+  creator : Nat
+  grant : Bool
+  arg : Nat
+
+def parseLStep? (tok : String) : Option LStepTok :=
+  match tok.splitOn ";" with
+  | [kind, sg, cr, g, a] => do
+    let signer ← parseNat? sg
+    let creator ← parseNat? cr
+    let grant ← if g == "0" then some false else if g == "1" then some true else none
+    let arg ← parseNat? a
+    if ["sale", "lgrant", "lic", "reg", "auth", "legacy"].contains kind then pure () else none
+    pure { kind, signer, creator, grant, arg }
+  | _ => none
+
+/-- insertion sort, duplicates removed -/
+def sortNats (l : List Nat) : List Nat :=
+  l.foldl (fun acc x =>
+    if acc.contains x then acc else acc.filter (· < x) ++ [x] ++ acc.filter (fun y => !(y < x))) []
+
+def stepLightHistory (fg accs : String) (toks : List String) : String :=
+  match parseNat? fg, parseNatList? accs, toks.mapM parseLStep? with
+  | some F, some accounts, some steps =>
+    if steps.isEmpty then "bad-op" else
+    let (fin, outs, _) := steps.foldl (fun (acc : LState × List String × Nat) st =>
+      let now := acc.2.2
+      let s0 := acc.1
+      if st.kind == "sale" then
+        let s' := lStep F s0 (.sale st.arg)
+        (s', acc.2.1 ++ [if s'.licence st.arg && !s0.licence st.arg then "ok" else "rej"], now + 1)
+      else if st.kind == "lgrant" then
+        (lStep F s0 (.grant F st.arg), acc.2.1 ++ ["ok"], now + 1)
+      else
+        let act : LAct := if st.kind == "lic" then .addLicence st.arg else if st.kind == "reg" then .register
+          else if st.kind == "auth" then .auth else .setLegacy
+        let m : LMsg := { signers := [st.signer], creator := st.creator, act }
+        -- the step's own grant is in force for this step only (granted before, revoked after)
+        let s : LState := if st.grant then lStep F s0 (.grant st.creator st.signer) else s0
+        let ok := lAccepted F now s m
+        let s' := lDeliver F now s m
+        let s'' : LState := if st.grant then lStep F s' (.revoke st.creator st.signer) else s'
+        (s'', acc.2.1 ++ [if ok then "ok" else "rej"], now + 1)) (lInit accounts, [], 1)
+    let ids := sortNats (steps.foldl (fun l st => l ++ [st.signer, st.creator, st.arg]) [] |>.filter (· > 30))
+    let recs := ids.map fun p =>
+      let r := match fin.client p with
+        | some r => s!"{r.activatedAt}/{r.lastAuthAt}"
+        | none => "-"
+      s!"{p}:{r}/{if fin.licence p then 1 else 0}"
+    ",".intercalate outs ++ "|" ++ ",".intercalate recs
+  | _, _, _ => "bad-op"
+
 def step (args : List String) : String :=
   match args with
+  | "lnh" :: fg :: accs :: toks => stepLightHistory fg accs toks
   | "dnh" :: namesake :: toks => stepDenomHistory namesake toks
   | "cbh" :: keys :: toks => stepConfirmHistory keys toks
   | "mtx" :: sc :: txs :: gs :: vi :: h :: chg :: toks => stepMulti sc txs gs vi h chg toks
